@@ -6,6 +6,7 @@ CONSTANTS
   RKeys = {"k1", "k2"}
   RPass = {"p1", "p2"}
   MaxHist = 2
+  BigResp = FALSE
   MaxConns = 2
   MaxCItems = 0
   MaxLines = 3
